@@ -1,28 +1,509 @@
 package main
 
 import (
+	"bufio"
+	"encoding/json"
+	"flag"
 	"fmt"
-	"golang.org/x/tools/go/packages"
-	"golang.org/x/tools/go/ssa"
-	"golang.org/x/tools/go/ssa/ssautil"
+	"go/types"
 	"os"
+	"os/exec"
+	"path/filepath"
+	"regexp"
+	"sort"
+	"strings"
 	"time"
 )
 
+// harnessFile is one Go file of a harness directory.
+type harnessFile struct {
+	path    string
+	pkgDir  string // relative to /repo
+	content []byte
+	isTest  bool
+}
+
+type entrySpec struct {
+	name     string
+	file     *harnessFile
+	common   []string
+	quick    []string
+	thorough []string
+	onlyTier string // "" | quick | thorough
+}
+
+type propConfig struct {
+	Property    string   `json:"property"`
+	Level       string   `json:"level"`
+	Explanation string   `json:"explanation"`
+	Assumptions []string `json:"assumptions"`
+	Outside     []string `json:"outside"`
+}
+
+type knownFinding struct {
+	Property   string `json:"property"`
+	Entry      string `json:"entry"`
+	Label      string `json:"label"`
+	Kind       string `json:"kind,omitempty"`
+	AssumeAway string `json:"assume_away,omitempty"` // SMT-LIB predicate over input names describing the listed failing inputs
+	What       string `json:"what"`
+	Status     string `json:"status"` // open | fixed
+	Commit     string `json:"commit,omitempty"`
+}
+
+type knownFile struct {
+	Findings []knownFinding `json:"findings"`
+}
+
 func main() {
-	t0 := time.Now()
-	cfg := &packages.Config{Mode: packages.LoadAllSyntax, Dir: "/repo", Env: append(os.Environ(), "GOFLAGS=-mod=mod", "GOPROXY=off", "GOSUMDB=off")}
-	pkgs, err := packages.Load(cfg, os.Args[1:]...)
-	if err != nil {
-		panic(err)
+	if len(os.Args) < 2 {
+		fmt.Fprintln(os.Stderr, "usage: gosym check|ssa ...")
+		os.Exit(2)
 	}
-	fmt.Println("loaded", len(pkgs), time.Since(t0))
-	packages.PrintErrors(pkgs)
-	prog, spkgs := ssautil.AllPackages(pkgs, ssa.InstantiateGenerics)
-	for _, p := range spkgs {
-		if p != nil {
-			p.Build()
+	switch os.Args[1] {
+	case "check":
+		os.Exit(cmdCheck(os.Args[2:]))
+	default:
+		fmt.Fprintln(os.Stderr, "unknown command", os.Args[1])
+		os.Exit(2)
+	}
+}
+
+var entryRe = regexp.MustCompile(`^//verif:(entry|quick|thorough|only)\s+(\S+)\s*(.*)$`)
+
+func parseHarnessDir(dir string) ([]*harnessFile, []*entrySpec, error) {
+	ents, err := os.ReadDir(dir)
+	if err != nil {
+		return nil, nil, err
+	}
+	var files []*harnessFile
+	var entries []*entrySpec
+	byName := map[string]*entrySpec{}
+	for _, de := range ents {
+		if !strings.HasSuffix(de.Name(), ".go") {
+			continue
+		}
+		p := filepath.Join(dir, de.Name())
+		b, err := os.ReadFile(p)
+		if err != nil {
+			return nil, nil, err
+		}
+		hf := &harnessFile{path: p, content: b, isTest: strings.HasSuffix(de.Name(), "_test.go")}
+		sc := bufio.NewScanner(strings.NewReader(string(b)))
+		sc.Buffer(make([]byte, 1<<20), 1<<20)
+		for sc.Scan() {
+			line := strings.TrimSpace(sc.Text())
+			if strings.HasPrefix(line, "//verif:pkg ") {
+				hf.pkgDir = strings.TrimSpace(strings.TrimPrefix(line, "//verif:pkg "))
+			}
+			if m := entryRe.FindStringSubmatch(line); m != nil {
+				es := byName[m[2]]
+				if es == nil {
+					es = &entrySpec{name: m[2], file: hf}
+					byName[m[2]] = es
+					entries = append(entries, es)
+				}
+				opts := strings.Fields(m[3])
+				switch m[1] {
+				case "entry":
+					es.common = append(es.common, opts...)
+					es.file = hf
+				case "quick":
+					es.quick = append(es.quick, opts...)
+				case "thorough":
+					es.thorough = append(es.thorough, opts...)
+				case "only":
+					if len(opts) > 0 {
+						es.onlyTier = opts[0]
+					}
+				}
+			}
+		}
+		if hf.pkgDir == "" {
+			return nil, nil, fmt.Errorf("%s: missing //verif:pkg directive", p)
+		}
+		files = append(files, hf)
+	}
+	return files, entries, nil
+}
+
+func pkgNameOf(content []byte) string {
+	sc := bufio.NewScanner(strings.NewReader(string(content)))
+	for sc.Scan() {
+		l := strings.TrimSpace(sc.Text())
+		if strings.HasPrefix(l, "package ") {
+			return strings.Fields(l)[1]
 		}
 	}
-	fmt.Println("built", time.Since(t0), len(prog.AllPackages()))
+	return ""
+}
+
+type overlaySet struct {
+	mem   map[string][]byte // for go/packages
+	files map[string]string // virtual path -> real path (for go test -overlay)
+	tmp   string
+}
+
+func buildOverlay(prop string, files []*harnessFile, entries []*entrySpec, vrtPath string) (*overlaySet, error) {
+	tmp, err := os.MkdirTemp("", "gosym-"+prop+"-")
+	if err != nil {
+		return nil, err
+	}
+	ov := &overlaySet{mem: map[string][]byte{}, files: map[string]string{}, tmp: tmp}
+	vb, err := os.ReadFile(vrtPath)
+	if err != nil {
+		return nil, err
+	}
+	ov.mem[repoRoot+"/zz_vrt/vrt.go"] = vb
+	ov.files[repoRoot+"/zz_vrt/vrt.go"] = vrtPath
+	testsByPkg := map[string][]string{}
+	pkgName := map[string]string{}
+	for _, hf := range files {
+		base := strings.TrimSuffix(filepath.Base(hf.path), ".go")
+		virt := fmt.Sprintf("%s/%s/zz_verif_%s_%s.go", repoRoot, hf.pkgDir, strings.ToLower(prop), base)
+		if hf.isTest {
+			virt = fmt.Sprintf("%s/%s/zz_verif_%s_%s", repoRoot, hf.pkgDir, strings.ToLower(prop), filepath.Base(hf.path))
+		}
+		ov.mem[virt] = hf.content
+		ov.files[virt] = hf.path
+		if !hf.isTest {
+			pkgName[hf.pkgDir] = pkgNameOf(hf.content)
+		}
+	}
+	for _, es := range entries {
+		testsByPkg[es.file.pkgDir] = append(testsByPkg[es.file.pkgDir], es.name)
+	}
+	for dir, names := range testsByPkg {
+		var sb strings.Builder
+		sb.WriteString("//go:build verif\n\npackage " + pkgName[dir] + "\n\nimport (\n\t\"testing\"\n\tvrt \"" + modPath + "/zz_vrt\"\n)\n\n")
+		for _, n := range names {
+			fmt.Fprintf(&sb, "func TestVerif%s(t *testing.T) { vrt.Run(t, %s) }\n", n, n)
+		}
+		real := filepath.Join(tmp, strings.ReplaceAll(dir, "/", "_")+"_zz_verif_test.go")
+		if err := os.WriteFile(real, []byte(sb.String()), 0o644); err != nil {
+			return nil, err
+		}
+		virt := fmt.Sprintf("%s/%s/zz_verif_%s_gen_test.go", repoRoot, dir, strings.ToLower(prop))
+		ov.files[virt] = real
+	}
+	return ov, nil
+}
+
+func (ov *overlaySet) writeJSON() (string, error) {
+	p := filepath.Join(ov.tmp, "overlay.json")
+	b, _ := json.MarshalIndent(map[string]any{"Replace": ov.files}, "", " ")
+	return p, os.WriteFile(p, b, 0o644)
+}
+
+// nativeReplay runs the harness natively on a counterexample. Returns (reproduced, output).
+func nativeReplay(ov *overlaySet, es *entrySpec, cexPath string, race bool, timeout time.Duration) (string, string) {
+	ovj, err := ov.writeJSON()
+	if err != nil {
+		return "error", err.Error()
+	}
+	args := []string{"test", "-tags", "verif", "-vet=off", "-count=1", "-overlay", ovj, "-run", "^TestVerif" + es.name + "$", "-timeout", fmt.Sprintf("%ds", int(timeout.Seconds())), "-v"}
+	if race {
+		args = append(args, "-race")
+	}
+	args = append(args, "./"+es.file.pkgDir)
+	cmd := exec.Command("go", args...)
+	cmd.Dir = repoRoot
+	cmd.Env = append(os.Environ(), "GOFLAGS=-mod=mod", "GOPROXY=off", "GOSUMDB=off", "GOTOOLCHAIN=local", "VERIF_CEX="+cexPath)
+	out, err := cmd.CombinedOutput()
+	s := string(out)
+	switch {
+	case strings.Contains(s, "VERIF-ASSERT"):
+		return "reproduced", s
+	case strings.Contains(s, "VERIF-OK"):
+		return "not-reproduced", s
+	case strings.Contains(s, "VERIF-ASSUME"):
+		return "assume-failed", s
+	case strings.Contains(s, "fatal error: concurrent map") || strings.Contains(s, "WARNING: DATA RACE"):
+		return "reproduced", s
+	case strings.Contains(s, "panic:") && err != nil:
+		return "reproduced", s
+	case strings.Contains(s, "test timed out") || strings.Contains(s, "all goroutines are asleep"):
+		return "reproduced-hang", s
+	}
+	if err != nil {
+		return "error", s
+	}
+	return "not-reproduced", s
+}
+
+func jsonSafeInputs(in map[string]any) map[string]any {
+	out := map[string]any{}
+	for k, v := range in {
+		switch x := v.(type) {
+		case uint64:
+			if x > 1<<53 {
+				out[k] = fmt.Sprint(x)
+			} else {
+				out[k] = x
+			}
+		case int64:
+			if x > 1<<53 || x < -(1<<53) {
+				out[k] = fmt.Sprint(x)
+			} else {
+				out[k] = x
+			}
+		case float64:
+			out[k] = x
+		default:
+			out[k] = v
+		}
+	}
+	return out
+}
+
+type entryOut struct {
+	es  *entrySpec
+	res *Result
+	cfg Config
+}
+
+func cmdCheck(args []string) int {
+	fs := flag.NewFlagSet("check", flag.ExitOnError)
+	prop := fs.String("prop", "", "property id")
+	hdir := fs.String("harness", "", "harness directory")
+	tier := fs.String("tier", "quick", "quick|thorough")
+	evid := fs.String("evidence", "", "evidence file to write")
+	only := fs.String("entry", "", "run only this entry")
+	known := fs.String("known", "/verif/known_findings.json", "known findings file")
+	vrtPath := fs.String("vrt", "/verif/rt/vrt.go", "vrt runtime source")
+	budget := fs.Duration("budget", 0, "wall budget per entry (default 4m quick, 25m thorough)")
+	noReplay := fs.Bool("noreplay", false, "skip native replay (debug)")
+	verbose := fs.Bool("v", false, "verbose")
+	fs.Parse(args)
+	if v := os.Getenv("VERIF_TIER"); v != "" && !flagSet(fs, "tier") {
+		*tier = v
+	}
+	t0 := time.Now()
+	seed := 0
+	fmt.Sscan(os.Getenv("VERIF_SEED"), &seed)
+	if *budget == 0 {
+		*budget = 4 * time.Minute
+		if *tier == "thorough" {
+			*budget = 25 * time.Minute
+		}
+	}
+	fail := func(msg string) int {
+		fmt.Println("INCONCLUSIVE property=" + *prop + " " + msg)
+		return 2
+	}
+	*hdir = mustAbs(*hdir)
+	files, entries, err := parseHarnessDir(*hdir)
+	if err != nil {
+		return fail(err.Error())
+	}
+	var pc propConfig
+	if b, err := os.ReadFile(filepath.Join(*hdir, "config.json")); err == nil {
+		if err := json.Unmarshal(b, &pc); err != nil {
+			return fail("config.json: " + err.Error())
+		}
+	}
+	if pc.Level == "" {
+		pc.Level = "other"
+	}
+	var kf knownFile
+	if b, err := os.ReadFile(*known); err == nil {
+		if err := json.Unmarshal(b, &kf); err != nil {
+			return fail("known findings: " + err.Error())
+		}
+	}
+	ov, err := buildOverlay(*prop, files, entries, *vrtPath)
+	if err != nil {
+		return fail(err.Error())
+	}
+	defer os.RemoveAll(ov.tmp)
+	// load all harness packages at once
+	pat := map[string]bool{}
+	for _, hf := range files {
+		pat["./"+hf.pkgDir] = true
+	}
+	var patterns []string
+	for p := range pat {
+		patterns = append(patterns, p)
+	}
+	sort.Strings(patterns)
+	tl := time.Now()
+	prog, pkgs, fset, err := loadProgram(loadSpec{overlay: ov.mem, patterns: patterns})
+	if err != nil {
+		return fail("load: " + err.Error())
+	}
+	loadT := time.Since(tl)
+	if *verbose {
+		fmt.Fprintf(os.Stderr, "loaded %v in %v\n", patterns, loadT)
+	}
+
+	var outs []entryOut
+	exit := 0
+	var knownLines, violationLines []string
+	totalViol := 0
+	replays := 0
+	cexDir := "/verif/evidence/cex"
+	os.MkdirAll(cexDir, 0o755)
+
+	for _, es := range entries {
+		if *only != "" && es.name != *only {
+			continue
+		}
+		if es.onlyTier != "" && es.onlyTier != *tier {
+			continue
+		}
+		cfg := defaultConfig()
+		cfg.Entry = es.name
+		cfg.PkgDir = es.file.pkgDir
+		cfg.Tier = *tier
+		if err := cfg.apply(es.common); err != nil {
+			return fail(err.Error())
+		}
+		tierOpts := es.quick
+		if *tier == "thorough" {
+			tierOpts = es.thorough
+		}
+		if err := cfg.apply(tierOpts); err != nil {
+			return fail(err.Error())
+		}
+		if v := os.Getenv("GOSYM_WORKERS"); v != "" {
+			fmt.Sscan(v, &cfg.Workers)
+		}
+		eng := &Engine{cfg: cfg, prog: prog, fset: fset, pkgs: pkgs, opaqueTypes: map[string]types.Type{}}
+		eng.silenceList = append(append([]string{}, defaultSilence...), cfg.Silence...)
+		eng.entry = findFunc(prog, pkgs, es.name)
+		if eng.entry == nil {
+			return fail("entry function not found: " + es.name)
+		}
+		for _, k := range kf.Findings {
+			if k.Property == *prop && k.Entry == es.name && k.Status == "open" {
+				eng.known = append(eng.known, k)
+			}
+		}
+		res := eng.explore(time.Now().Add(*budget))
+		outs = append(outs, entryOut{es, res, cfg})
+		if *verbose {
+			fmt.Fprintf(os.Stderr, "[%s] paths=%d ends=%v nodes=%d queries=%d solver=%.1fs wall=%.1fs viol=%d inconc=%v\n", es.name, res.Paths, res.EndKinds, res.TreeNodes, res.Queries, res.SolverTime.Seconds(), res.Wall.Seconds(), len(res.Violations), res.Inconclusive)
+		}
+		// vacuity
+		for _, l := range cfg.Reach {
+			if res.Reached[l] == 0 && len(res.Violations) == 0 {
+				res.Inconclusive = append(res.Inconclusive, "vacuous: label never reached: "+l)
+			}
+		}
+		if res.EndKinds["done"] == 0 && len(res.Violations) == 0 {
+			res.Inconclusive = append(res.Inconclusive, "vacuous: no path reaches the end of the harness (assert(false) twin not violated)")
+		}
+		// violations: replay
+		for i, v := range res.Violations {
+			cexPath := filepath.Join(cexDir, fmt.Sprintf("%s-%s-%d.json", *prop, es.name, i))
+			v.Inputs = jsonSafeInputs(v.Inputs)
+			b, _ := json.MarshalIndent(v, "", " ")
+			os.WriteFile(cexPath, b, 0o644)
+			status := "skipped"
+			out := ""
+			if !*noReplay {
+				status, out = nativeReplay(ov, es, cexPath, v.Kind == "race", 120*time.Second)
+				replays++
+				if status != "reproduced" && status != "reproduced-hang" && len(v.Sched) > 0 {
+					// schedule-dependent: retry a few times natively, then fall back to the
+					// deterministic concrete re-execution in the interpreter
+					for k := 0; k < 3 && status != "reproduced"; k++ {
+						status, out = nativeReplay(ov, es, cexPath, v.Kind == "race", 120*time.Second)
+						replays++
+					}
+					if status != "reproduced" {
+						if eng.concreteReplay(v) {
+							status = "reproduced-in-interpreter"
+						}
+					}
+				}
+			}
+			if *verbose || (status != "reproduced" && status != "reproduced-in-interpreter") {
+				fmt.Fprintf(os.Stderr, "[%s] violation %s %q replay=%s\n", es.name, v.Kind, v.Label, status)
+				if status != "reproduced" && status != "skipped" {
+					fmt.Fprintln(os.Stderr, lastLines(out, 25))
+				}
+			}
+			if v.Notes == nil {
+				v.Notes = map[string]string{}
+			}
+			v.Notes["replay"] = status
+			b, _ = json.MarshalIndent(v, "", " ")
+			os.WriteFile(cexPath, b, 0o644)
+			switch status {
+			case "reproduced", "reproduced-in-interpreter", "reproduced-hang", "skipped":
+				if v.Known != "" {
+					knownLines = append(knownLines, fmt.Sprintf("KNOWN-FINDING: property=%s %s", *prop, v.Known))
+				} else {
+					totalViol++
+					violationLines = append(violationLines, fmt.Sprintf("VIOLATION property=%s replay=%s", *prop, cexPath))
+					fmt.Fprintf(os.Stderr, "  violation in %s: %s %q inputs=%v\n", es.name, v.Kind, v.Label, v.Inputs)
+				}
+			default:
+				res.Inconclusive = append(res.Inconclusive, fmt.Sprintf("cex-not-reproduced: %s %q (%s)", v.Kind, v.Label, status))
+			}
+		}
+	}
+	// evidence
+	ev := buildEvidence(*prop, *tier, seed, pc, outs, loadT, time.Since(t0), totalViol, replays, knownLines)
+	if *evid != "" {
+		os.MkdirAll(filepath.Dir(*evid), 0o755)
+		b, _ := json.MarshalIndent(ev, "", " ")
+		if err := os.WriteFile(*evid, b, 0o644); err != nil {
+			return fail("cannot write evidence: " + err.Error())
+		}
+	}
+	sort.Strings(knownLines)
+	knownLines = uniq(knownLines)
+	for _, l := range knownLines {
+		fmt.Println(l)
+	}
+	if totalViol > 0 {
+		for _, l := range violationLines {
+			fmt.Println(l)
+		}
+		return 1
+	}
+	inconc := false
+	for _, o := range outs {
+		for _, m := range o.res.Inconclusive {
+			fmt.Printf("INCONCLUSIVE property=%s entry=%s %s\n", *prop, o.es.name, m)
+			inconc = true
+		}
+	}
+	if inconc {
+		return 2
+	}
+	for _, o := range outs {
+		fmt.Printf("OK property=%s entry=%s paths=%d nodes=%d queries=%d solver_s=%.1f wall_s=%.1f\n", *prop, o.es.name, o.res.Paths, o.res.TreeNodes, o.res.Queries, o.res.SolverTime.Seconds(), o.res.Wall.Seconds())
+	}
+	return exit
+}
+
+func uniq(s []string) []string {
+	var out []string
+	for i, x := range s {
+		if i == 0 || x != s[i-1] {
+			out = append(out, x)
+		}
+	}
+	return out
+}
+
+func lastLines(s string, n int) string {
+	lines := strings.Split(strings.TrimRight(s, "\n"), "\n")
+	if len(lines) > n {
+		lines = lines[len(lines)-n:]
+	}
+	return strings.Join(lines, "\n")
+}
+
+func flagSet(fs *flag.FlagSet, name string) bool {
+	found := false
+	fs.Visit(func(f *flag.Flag) {
+		if f.Name == name {
+			found = true
+		}
+	})
+	return found
 }
